@@ -1,4 +1,4 @@
-(* Source tie, family 79-gotrans-loops-misc, the soyhtml part: soyhtml/scope.go (push, pop, set, lookup, alldata, enter)
+(* Source tie, family 79-gotrans-soyhtml-scope: soyhtml/scope.go (push, pop, set, lookup, alldata, enter)
    and the loop functions index / isFirst / isLast of soyhtml/funcs.go with the hidden loop names of exec.go, against
    Model/Interp.v's sc_ functions, s_index / s_lastindex and loop_func.
 
